@@ -7,7 +7,7 @@ Record lobs := mkLobs { lo_ok : bool; lo_active : bool; lo_status : dstatus; lo_
 Definition call_target (call : lcall) : N * option N :=
   match call with
   | LActivate c => (c, None) | LDeactivate c => (c, None)
-  | LAttach c d => (c, Some d) | LPushPull c d _ => (c, Some d) | LDetach c d _ => (c, Some d) | LRemove c d _ => (c, Some d)
+  | LAttach c d _ => (c, Some d) | LAttachSame c d _ => (c, Some d) | LPushPull c d _ => (c, Some d) | LDetach c d _ => (c, Some d) | LRemove c d _ => (c, Some d)
   end.
 
 Definition obs_matches (s : lstate) (call : lcall) (ok : bool) (o : lobs) : bool :=
